@@ -307,7 +307,33 @@ fn body(scn: &Scn, g: &Guest, slot: &Arc<Mutex<Option<ExecResult>>>) {
         process.exit();
     }
     let written = writer.join().unwrap();
-    let received = reader.join().unwrap();
+    let received_all = reader.join().unwrap();
+    // `sync:<total>` lines appear wherever the state count passes a multiple of 2,000,000 (a long wait for the stop line
+    // gets there); when and how often is C13's business, here they are taken out of the stream - whole lines only, plus an
+    // unterminated tail that can be nothing else
+    let (received, sync_lines) = {
+        let mut out: Vec<u8> = Vec::with_capacity(received_all.len());
+        let mut n = 0u64;
+        let mut start = 0usize;
+        while start < received_all.len() {
+            let end = received_all[start..].iter().position(|b| *b == b'\n').map(|p| start + p + 1).unwrap_or(received_all.len());
+            let line = &received_all[start..end];
+            let complete = line.last() == Some(&b'\n');
+            let body = if complete { &line[..line.len() - 1] } else { line };
+            let is_sync = if complete {
+                body.len() > 5 && body.starts_with(b"sync:") && body[5..].iter().all(|c| c.is_ascii_digit())
+            } else {
+                body.len() >= 2 && (b"sync:".starts_with(body) || (body.starts_with(b"sync:") && body[5..].iter().all(|c| c.is_ascii_digit())))
+            };
+            if is_sync {
+                n += 1;
+            } else {
+                out.extend_from_slice(line);
+            }
+            start = end;
+        }
+        (out, n)
+    };
     let cb = cbs.borrow();
 
     // ---- oracles
@@ -498,6 +524,7 @@ fn body(scn: &Scn, g: &Guest, slot: &Arc<Mutex<Option<ExecResult>>>) {
     }
     add(&mut stats, "lines_complete_sent", complete.len() as u64);
     add(&mut stats, "messages_received", recs.len() as u64);
+    add(&mut stats, "sync_lines_set_aside", sync_lines);
     add(&mut stats, "bytes_received", received.len() as u64);
     add(&mut stats, "iterations", cb.iter);
     if frag.is_some() {
